@@ -131,7 +131,11 @@ func vNewShard(i, K int, full bool, env int) *vShard {
 		s.runtime2OK = zzv.Bool(p + ".runtime2OK")
 		s.hashEq2 = zzv.Bool(p + ".hashEq2")
 	} else {
-		switch zzv.Choose(p+".kind", 3) {
+		kind := 2
+		if env&8 == 0 { // bit 3: every shard in sync (planning-only exploration at larger sizes)
+			kind = zzv.Choose(p+".kind", 3)
+		}
+		switch kind {
 		case 0:
 			s.ready = zzv.Bool(p + ".ready") // unreachable either way: not ready, or the status GET fails
 			s.statusOK = false
@@ -491,35 +495,74 @@ func (cy *vCycle) assertC04() {
 		return
 	}
 	opt := cy.opt
+	headRelief := zzv.OnPath("alleviateShardHeadSeries>transferTarget")
 	for j, s := range cy.shards {
 		if !s.inSync() || s.nPosted == 0 {
 			continue
 		}
 		var addSeries, addTotal int64
 		placed := false
-		viaHeadRelief := false
+		moved := false
 		for h := uint64(1); h <= uint64(cy.K); h++ {
 			if cy.isNew(j, h) {
 				placed = true
 				se, to, fromShard := cy.weight(h)
 				addSeries += se
 				addTotal += to
-				if fromShard {
-					viaHeadRelief = true
-				}
+				moved = moved || fromShard
 				// a target that alone exceeds a limit is never assigned
-				zzv.Finding("C04-F2", to > opt.MaxProcessSeries && se <= opt.MaxProcessSeries && (opt.MaxHeadSeries == 0 || se <= opt.MaxHeadSeries))
-				zzv.Assert("C04.oversized.notplaced", !((opt.MaxHeadSeries != 0 && se > opt.MaxHeadSeries) || se > opt.MaxProcessSeries || to > opt.MaxProcessSeries))
+				zzv.Finding("C04-F1", zzv.And(fromShard, opt.MaxHeadSeries != 0, headRelief))
+				zzv.Assert("C04.oversized.notplaced", !zzv.Or(zzv.And(opt.MaxHeadSeries != 0, se > opt.MaxHeadSeries), to > opt.MaxProcessSeries))
 			}
 		}
 		if placed {
 			zzv.Cover("c04.placed")
-			headOK := opt.MaxHeadSeries == 0 || s.rt.HeadSeries+addSeries < opt.MaxHeadSeries
+			headOK := zzv.Or(opt.MaxHeadSeries == 0, s.rt.HeadSeries+addSeries < opt.MaxHeadSeries)
 			procOK := s.rt.ProcessSeries+addTotal < opt.MaxProcessSeries
 			// F1: head-series relief tests only the head limit of the destination
-			zzv.Finding("C04-F1", viaHeadRelief && headOK && !procOK && opt.MaxHeadSeries != 0 && zzv.OnPath("alleviateShardHeadSeries>transferTarget"))
-			zzv.Assert("C04.fits", headOK && procOK)
+			zzv.Finding("C04-F1", zzv.And(moved, headOK, !procOK, opt.MaxHeadSeries != 0, headRelief))
+			zzv.Assert("C04.fits", zzv.And(headOK, procOK))
 		}
+	}
+	// "... and never causes a scale-up": when every discovered target that no reachable shard
+	// reports is oversized (strictly exceeds a limit on its own) or not eligible at all, and
+	// relief cannot ask for space, no scale request exceeds the current shard count
+	onlyOversized := true
+	causedByTotal := false
+	for h := uint64(1); h <= uint64(cy.K); h++ {
+		if _, isActive := cy.active[h]; !isActive {
+			continue
+		}
+		held := false
+		for i, s := range cy.shards {
+			if _, ok := cy.snap[i][h]; ok && s.reachable() {
+				held = true
+			}
+		}
+		st, known := cy.exSnap[h]
+		if held || !known {
+			continue
+		}
+		over := zzv.Or(zzv.And(opt.MaxHeadSeries != 0, st.Series > opt.MaxHeadSeries), st.TotalSeries > opt.MaxProcessSeries)
+		onlyOversized = zzv.And(onlyOversized, zzv.Or(st.Health != scrape.HealthGood, over))
+		// F2: "too big" compares the kept series, not the total series, with the process limit
+		causedByTotal = zzv.Or(causedByTotal, zzv.And(st.Health == scrape.HealthGood, st.TotalSeries > opt.MaxProcessSeries, st.Series <= opt.MaxProcessSeries))
+	}
+	reliefQuiet := opt.DisableAlleviate
+	if !reliefQuiet {
+		quiet := true
+		for _, s := range cy.shards {
+			if s.inSync() {
+				quiet = zzv.And(quiet, s.rt.ProcessSeries < opt.MaxProcessSeries, zzv.Or(opt.MaxHeadSeries == 0, s.rt.HeadSeries < opt.MaxHeadSeries))
+			}
+		}
+		reliefQuiet = quiet
+	}
+	limit := zzv.IfInt32(opt.MinShard > int32(cy.S), opt.MinShard, int32(cy.S))
+	for _, n := range cy.mgr.scaleCalls {
+		zzv.Cover("c04.scalecall")
+		zzv.Finding("C04-F2", causedByTotal)
+		zzv.Assert("C04.oversized.noscaleup", zzv.Implies(zzv.And(onlyOversized, reliefQuiet), n <= limit))
 	}
 }
 
